@@ -7,7 +7,8 @@ namespace sim {
 namespace {
 
 struct Model {
-	std::map<std::string, std::string> kind; // path -> file | dir | noperm
+	std::map<std::string, std::string> kind; // path -> file | dir | noperm | link
+	std::map<std::string, std::string> link; // path -> target of the symbolic link
 	std::map<std::string, long> marker;      // path -> marker value
 	std::map<std::string, std::string> home; // user -> dir
 	std::map<unsigned, std::string> uid_home;
@@ -19,6 +20,8 @@ struct Model {
 		for (auto &f : w["fs"]) {
 			std::string p = f["path"].get<std::string>();
 			kind[p] = f.value("kind", std::string("file"));
+			if (kind[p] == "link")
+				link[p] = f["to"].get<std::string>();
 			if (f.contains("marker"))
 				marker[p] = f["marker"].get<long>();
 		}
@@ -46,7 +49,7 @@ struct Model {
 		return it->second + (sl == std::string::npos ? "" : name.substr(sl));
 	}
 	// lookup as a file system does it: runs of '/' count as one, a trailing '/' demands a directory
-	const std::string *node_kind(const std::string &path) const
+	const std::string *node_kind(const std::string &path, int hops = 0) const
 	{
 		std::string p;
 		for (char c : path)
@@ -56,7 +59,11 @@ struct Model {
 		if (want_dir)
 			p.pop_back();
 		auto it = kind.find(p);
-		if (it == kind.end() || (want_dir && it->second != "dir"))
+		if (it == kind.end())
+			return nullptr;
+		if (it->second == "link") // stat() and fopen() follow symbolic links
+			return hops >= 8 ? nullptr : node_kind(link.at(p) + (want_dir ? "/" : ""), hops + 1);
+		if (want_dir && it->second != "dir")
 			return nullptr;
 		canonical = p;
 		return &it->second;
@@ -143,6 +150,12 @@ json generate(uint64_t seed, uint64_t idx, int tier)
 				fs.push_back({{"path", p}, {"kind", "dir"}});
 			else if (k < 7)
 				fs.push_back({{"path", p}, {"kind", "noperm"}});
+			else if (k < 8) {
+				// a symbolic link: to another candidate (whatever that is, possibly a link or itself), a directory, or nowhere
+				unsigned tk = (unsigned)r.below(6);
+				std::string to = tk == 0 ? std::string("/nowhere/x") : tk == 1 ? std::string(roots[r.below(sizeof(roots) / sizeof(roots[0]))]) : std::string(roots[r.below(9)]) + (r.chance(1, 2) ? "/f.conf" : "/g.conf");
+				fs.push_back({{"path", p}, {"kind", "link"}, {"to", to}});
+			}
 		}
 	json w;
 	w["fs"] = fs;
@@ -255,6 +268,11 @@ JudgeOut judge(const json &plan)
 			bool found = M.search(dirs, name, &want);
 			if (found && dirs.size() > 1)
 				out.k.add("probe.found_with_several_directories");
+			if (found) {
+				auto lk = M.kind.find(want);
+				if (lk != M.kind.end() && lk->second == "link")
+					out.k.add("probe.found_through_symbolic_link");
+			}
 			// precedence and shadowing reach
 			if (found && !name.empty() && name[0] != '/') {
 				int earlier_dirs = 0;
@@ -264,6 +282,8 @@ JudgeOut judge(const json &plan)
 					auto it = M.kind.find(d + "/" + name);
 					if (it != M.kind.end() && it->second == "dir")
 						out.k.add("probe.directory_shadowing_a_file_earlier_in_path");
+					if (it != M.kind.end() && it->second == "link")
+						out.k.add("probe.dangling_or_directory_link_skipped");
 					earlier_dirs++;
 				}
 			}
@@ -339,7 +359,7 @@ Property P = [] {
 	p.assumptions = {"reference model M-resolve (40 lines): first directory in add order containing a regular file, absolute names bypass the list, ~ / ~user via the simulated passwd table, unknown user unchanged",
 			 "an unreadable regular file is found by the search (stat says regular) but cannot be opened: the parse must fail",
 			 "uninitialised-memory dependence is decided by a differential over the allocator fill byte (0x00 / 0xA5 / 0xFF) plus ASan in the simulated getpwnam, not by MSan"};
-	p.probes = {"tilde_prefixed_search_directory", "tilde_user_expanded", "tilde_unknown_user", "found_with_several_directories", "directory_shadowing_a_file_earlier_in_path", "file_resolved_and_parsed"};
+	p.probes = {"tilde_prefixed_search_directory", "tilde_user_expanded", "tilde_unknown_user", "found_with_several_directories", "directory_shadowing_a_file_earlier_in_path", "file_resolved_and_parsed", "found_through_symbolic_link", "dangling_or_directory_link_skipped"};
 	p.components = {{"confuse.c (cfg_searchpath, cfg_tilde_expand, cfg_parse)", "real"}, {"lexer.l cfg_lexer_include", "real"}, {"file namespace (stat/fopen)", "stub: in-memory tree"},
 			{"passwd database (getpwnam/getpwuid/geteuid)", "stub"}, {"allocator", "stub: fill byte chosen by the simulator"}};
 	p.quick_seconds = 20;
